@@ -266,7 +266,7 @@ def cosim_one(args):
                 out['problems'].append(('next-call-raised', repr(why)[:80]))
 
     ctx = vrt.run_scenario(scenario, refbroker.factory(policy), seed=seed, plan=vrt.FaultPlan(), p_preempt=0.1, p_jump=0.1,
-                           repo_path=str(common.REPO))
+                           fair_time=(seed % 2 == 1), repo_path=str(common.REPO))
     out['abort'] = ctx.sched.abort_reason
     out['choices_len'] = len(ctx.choices)
     out['preemptions'] = ctx.sched.preemptions
